@@ -248,13 +248,75 @@ theorem ifElse_fits (cx : TyCx) (Γ : TEnv) (c t e : Expr) (τ : Ty) (hc : c.ty 
   exact ⟨j, by simp [Expr.ty, hc, h1, h2, hj], hfj⟩
 
 theorem match_fits (cx : TyCx) (Γ : TEnv) (s : Expr) (arms : List Arm) (ts τ : Ty) (hs : s.ty cx Γ = some ts)
-    (ha : Fits (Arm.tys cx Γ ts arms) τ) : Fits ((Expr.match_ s arms).ty cx Γ) τ := by
-  simpa [Expr.ty, hs] using ha
+    (hex : Arms.exhaustive cx.it ts arms = true) (ha : Fits (Arm.tys cx Γ ts arms) τ) :
+    Fits ((Expr.match_ s arms).ty cx Γ) τ := by
+  simpa [Expr.ty, hs, hex] using ha
+
+/-! ## Exhaustiveness -/
+
+theorem exh_of_total (it : Item) (t : Ty) (arms : List Arm) (a : Arm) (ha : a ∈ arms) (ht : a.pat.total it t = true) :
+    Arms.exhaustive it t arms = true := by
+  simp only [Arms.exhaustive, Bool.or_eq_true, List.any_eq_true]
+  exact Or.inl ⟨a, ha, ht⟩
+
+/-- A trailing `_ => ..` arm. -/
+theorem exh_append_wild (it : Item) (t : Ty) (arms : List Arm) (e : Expr) (c : Bool) :
+    Arms.exhaustive it t (arms ++ [Arm.mk .wild e c]) = true :=
+  exh_of_total it t _ (Arm.mk .wild e c) (by simp) (by simp [Arm.pat, Pat.total])
+
+theorem indexed_mem_of_get (it : Item) (k : Nat) (d : Data) (h : it.variants[k]? = some d) : (k, d) ∈ it.indexed := by
+  unfold Item.indexed
+  exact List.mem_map.mpr ⟨(d, k), List.mk_mem_zipIdx_iff_getElem?.mpr h, rfl⟩
+
+/-- One arm per variant. -/
+theorem exh_indexed (it : Item) (t : Ty) (ht : isSelfRef t = true) (f : Nat × Data → List Arm)
+    (h : ∀ x ∈ it.indexed, ∃ a ∈ f x, a.pat.coversVariant x.1 = true) :
+    Arms.exhaustive it t (it.indexed.flatMap f) = true := by
+  simp only [Arms.exhaustive, Bool.or_eq_true, Bool.and_eq_true, List.all_eq_true, List.mem_range, List.any_eq_true]
+  refine Or.inr ⟨ht, ?_⟩
+  intro k hk
+  have hd : it.variants[k]? = some it.variants[k] := List.getElem?_eq_getElem hk
+  obtain ⟨a, ha, hc⟩ := h (k, it.variants[k]) (indexed_mem_of_get it k _ hd)
+  exact ⟨a, List.mem_flatMap.mpr ⟨_, indexed_mem_of_get it k _ hd, ha⟩, hc⟩
 
 theorem block_fits (cx : TyCx) (Γ Γ' : TEnv) (stmts : List Stmt) (tail : Expr) (τ : Ty)
     (h1 : Stmt.checks cx Γ stmts = some Γ') (h2 : Fits (tail.ty cx Γ') τ) :
     Fits ((Expr.block stmts tail).ty cx Γ) τ := by
   simpa [Expr.ty, h1] using h2
+
+/-- `(self, other)` matched by the pair pattern of the only variant. -/
+theorem total_pairPat (it : Item) (h : it.variants.length = 1) :
+    (pairPat 0).total it (.pair (.ref .self_) (.ref .self_)) = true := by
+  simp [pairPat, Pat.total, Pat.totals, isSelfRef, h]
+
+/-- With at most one variant, `Item::is_incomparable` is the marker of that variant (or of the item). -/
+theorem single_not_incomparable (it : Item) (d : Data) (hv : it.variants = [d]) (h : it.isIncomparable = false) :
+    d.incomparable = false := by
+  cases it with
+  | item d' => simp only [Item.variants, List.cons.injEq, and_true] at hv; subst hv; simpa [Item.isIncomparable] using h
+  | enum_ disc id inc vs =>
+    simp only [Item.variants] at hv; subst hv
+    simp only [Item.isIncomparable, Bool.or_eq_false_iff] at h
+    simpa using h.2
+
+/-- The single-variant `match (self, other) { .. }`: the only variant's arm is irrefutable. -/
+theorem exh_single_pair (it : Item) (t : Trait) (f : Nat → Data → List Arm) (hlen : it.variants.length ≤ 1)
+    (hne : it.isEmpty t = false)
+    (hf : ∀ d, it.variants = [d] → d.isEmpty t = false → ∃ e c, Arm.mk (pairPat 0) e c ∈ f 0 d) :
+    Arms.exhaustive it (.pair (.ref .self_) (.ref .self_)) (it.indexed.flatMap fun (k, d) => f k d) = true := by
+  have : ∃ d, it.variants = [d] ∧ d.isEmpty t = false := by
+    simp only [Item.isEmpty, List.all_eq_false] at hne
+    obtain ⟨d, hd, hde⟩ := hne
+    match hv : it.variants, hlen, hd with
+    | [d'], _, hd => simp only [List.mem_singleton] at hd; subst hd; exact ⟨d, rfl, by simpa using hde⟩
+    | [], _, hd => simp at hd
+    | _ :: _ :: _, hl, _ => simp at hl
+  obtain ⟨d, hv, hde⟩ := this
+  obtain ⟨e, c, hmem⟩ := hf d hv hde
+  refine exh_of_total it _ _ (Arm.mk (pairPat 0) e c) ?_ (by simpa [Arm.pat] using total_pairPat it (by simp [hv]))
+  simp only [Item.indexed, hv, List.zipIdx_cons, List.zipIdx_nil, List.map_cons, List.map_nil, List.flatMap_cons,
+    List.flatMap_nil, List.append_nil]
+  exact hmem
 
 /-! ## `PartialEq` -/
 
@@ -318,21 +380,37 @@ theorem eqIncStmts_checks (cx : TyCx) (Γ : TEnv) (vs : List Data) (hvs : cx.it.
     simp [Stmt.checks, Stmt.check, Expr.ty, vSelf, hs.s, this, hret, Ty.fits]
   · simp [Stmt.checks]
 
-theorem partialEqSignature_ty (c : Cfg) (cx : TyCx) (Γ : TEnv) (hs : SelfOther Γ) (hret : cx.ret = .bool) :
+theorem partialEqBody_arm (k : Nat) (d : Data) (hwf : d.WF) (hnu : d.shape ≠ .union)
+    (hne : d.isEmpty .partialEq = false) (hinc : d.incomparable = false) :
+    ∃ e c, Arm.mk (pairPat k) e c ∈ partialEqBody k d := by
+  unfold partialEqBody
+  simp only [hne, hinc, Bool.or_self, Bool.false_eq_true, if_false]
+  rcases shape_of_nonempty' d .partialEq hwf hnu hne with h | h <;> simp [h]
+
+theorem partialEqSignature_ty (c : Cfg) (cx : TyCx) (Γ : TEnv) (hs : SelfOther Γ) (hret : cx.ret = .bool)
+    (hwf : cx.it.WF) (hnu : ∀ d ∈ cx.it.variants, d.shape ≠ .union) :
     Fits ((partialEqSignature c cx.it (cx.it.indexed.flatMap fun (k, d) => partialEqBody k d)).ty cx Γ) .bool := by
   have harms : Fits (Arm.tys cx Γ (.pair (.ref .self_) (.ref .self_))
       (cx.it.indexed.flatMap fun (k, d) => partialEqBody k d)) .bool :=
     Arm.tys_flatMap cx Γ _ _ _ _ fun x hx => partialEqBody_ty cx Γ x.1 x.2 (Item.indexed_mem' cx.it x hx)
-  have hsingle : Fits ((if cx.it.isEmpty .partialEq then Expr.litBool true
-      else .match_ tupleSO (cx.it.indexed.flatMap fun (k, d) => partialEqBody k d)).ty cx Γ) .bool := by
+  have hsingle : cx.it.variants.length ≤ 1 → cx.it.isIncomparable = false →
+      Fits ((if cx.it.isEmpty .partialEq then Expr.litBool true
+        else .match_ tupleSO (cx.it.indexed.flatMap fun (k, d) => partialEqBody k d)).ty cx Γ) .bool := by
+    intro hlen hninc
     split
     · exact Fits.of_eq (by simp [Expr.ty])
-    · exact match_fits cx Γ _ _ _ _ (tupleSO_ty cx Γ hs) harms
+    · rename_i hne
+      refine match_fits cx Γ _ _ _ _ (tupleSO_ty cx Γ hs) ?_ harms
+      exact exh_single_pair cx.it .partialEq partialEqBody hlen (by simpa using hne) fun d hv hde =>
+        partialEqBody_arm 0 d (hwf d (by simp [hv])) (hnu d (by simp [hv])) hde
+          (single_not_incomparable cx.it d hv hninc)
   have hfalse : Fits ((Expr.litBool false).ty cx Γ) .bool := Fits.of_eq (by simp [Expr.ty])
   unfold partialEqSignature
   split
   · exact hfalse
-  · simp only
+  · rename_i hninc
+    have hninc' : cx.it.isIncomparable = false := by simpa using hninc
+    simp only
     split
     · rename_i disc id inc vs hit
       have hvs : cx.it.variants = vs := by simp [hit, Item.variants]
@@ -345,15 +423,17 @@ theorem partialEqSignature_ty (c : Cfg) (cx : TyCx) (Γ : TEnv) (hs : SelfOther 
             · exact Fits.of_eq (by simp [Expr.ty])
             · exact Fits.never (unreachableRest_ty c cx _)
           refine ifElse_fits cx Γ _ _ _ _ (discEq_ty cx Γ hs) ?_ hfalse
-          refine match_fits cx Γ _ _ _ _ (tupleSO_ty cx Γ hs) ?_
+          refine match_fits cx Γ _ _ _ _ (tupleSO_ty cx Γ hs) (exh_append_wild ..) ?_
           exact Arm.tys_append cx Γ _ .bool _ _ (Arm.tys_append cx Γ _ .bool _ _ harms (eqIncArms_ty cx Γ vs hvs))
             (Arm.tys_cons cx Γ (.pair (.ref .self_) (.ref .self_)) .bool .wild _ true [] []
               (by simp [Pat.bindTy]) hrest (Arm.tys_nil ..))
         · refine ifElse_fits cx Γ _ _ _ _ (discEq_ty cx Γ hs) ?_ hfalse
           exact toExpr_ty cx Γ Γ (Blk.mk (eqIncStmts vs) (.litBool true)) .bool
             (eqIncStmts_checks cx Γ vs hvs hs hret) (Fits.of_eq (by simp [Expr.ty])) (fun _ => rfl)
-      · exact hsingle
-    · exact hsingle
+      · rename_i hlen
+        exact hsingle (by rw [hvs]; omega) hninc'
+    · rename_i d hit
+      exact hsingle (by simp [hit, Item.variants]) hninc'
 
 
 /-! ## One-sided arms (`match self { .. }`) -/
@@ -414,15 +494,31 @@ theorem cloneBody_ty (cx : TyCx) (Γ : TEnv) (dw : DeriveWhere) (k : Nat) (d : D
       simp [Expr.ty, hd, hsh]
     · exact Arm.tys_nil ..
 
-theorem cloneSignature_ty (cx : TyCx) (Γ : TEnv) (dw : DeriveWhere) (hs : Γ.lookup .self_ = some (.ref .self_)) :
+theorem cloneBody_covers (dw : DeriveWhere) (k : Nat) (d : Data) (hs : (dw.shortcut && dw.contains .copy) = false)
+    (hnu : d.shape ≠ .union) : ∃ a ∈ cloneBody dw k d, a.pat.coversVariant k = true := by
+  unfold cloneBody
+  simp only [hs, Bool.false_eq_true, if_false]
+  cases h : d.shape with
+  | union => exact absurd h hnu
+  | named => exact ⟨_, List.mem_cons_self .., by simp [Arm.pat, Pat.coversVariant]⟩
+  | tuple => exact ⟨_, List.mem_cons_self .., by simp [Arm.pat, Pat.coversVariant]⟩
+  | unit => exact ⟨_, List.mem_cons_self .., by simp [Arm.pat, Pat.coversVariant]⟩
+
+theorem cloneSignature_ty (cx : TyCx) (Γ : TEnv) (dw : DeriveWhere) (hs : Γ.lookup .self_ = some (.ref .self_))
+    (hnu : isUnion cx.it = false → ∀ d ∈ cx.it.variants, d.shape ≠ .union) :
     Fits ((cloneSignature cx.it dw (cx.it.indexed.flatMap fun (k, d) => cloneBody dw k d)).ty cx Γ) .self_ := by
   unfold cloneSignature
   split
   · exact Fits.of_eq (by simp [Expr.ty, vSelf, hs])
-  · split
+  · rename_i hsc
+    split
     · exact Fits.of_eq (by simp [Expr.ty, vSelf, hs, Stmt.checks, Stmt.check])
-    · exact match_fits cx Γ _ _ (.ref .self_) _ (by simp [Expr.ty, vSelf, hs])
+    · rename_i hu
+      refine match_fits cx Γ _ _ (.ref .self_) _ (by simp [Expr.ty, vSelf, hs]) ?_
         (Arm.tys_flatMap cx Γ _ _ _ _ fun x hx => cloneBody_ty cx Γ dw x.1 x.2 (Item.indexed_mem' cx.it x hx))
+      exact exh_indexed cx.it _ (by simp [isSelfRef]) _ fun x hx =>
+        cloneBody_covers dw x.1 x.2 (by simpa using hsc)
+          (hnu (by simpa using hu) x.2 (List.mem_of_getElem? (Item.indexed_mem' cx.it x hx)))
 
 /-! ## `Debug` -/
 
@@ -441,7 +537,7 @@ theorem debugBody_ty (cx : TyCx) (Γ : TEnv) (k : Nat) (d : Data) (hd : cx.it.va
       have h1 : Stmt.checks cx (ctorBindTys .self_ false k d.fields.length ++ Γ)
           [.let_ (.bind .mut_ .builder) (.call .debugStruct [.var .f, .litStr (.dataName k)])] =
           some ((.builder, .builderS) :: (ctorBindTys .self_ false k d.fields.length ++ Γ)) := by
-        simp [Stmt.checks, Stmt.check, Expr.ty, Expr.tys, hfl [], applyFnTy, Pat.bindTy]
+        simp [Stmt.checks, Stmt.check, Expr.ty, Expr.tys, hfl [], applyFnTy, Pat.bindTy, Pat.total]
       rw [h1]
       simp only [Option.bind]
       apply Stmt.checks_same
@@ -462,7 +558,7 @@ theorem debugBody_ty (cx : TyCx) (Γ : TEnv) (k : Nat) (d : Data) (hd : cx.it.va
       have h1 : Stmt.checks cx (ctorBindTys .self_ false k d.fields.length ++ Γ)
           [.let_ (.bind .mut_ .builder) (.call .debugTuple [.var .f, .litStr (.dataName k)])] =
           some ((.builder, .builderT) :: (ctorBindTys .self_ false k d.fields.length ++ Γ)) := by
-        simp [Stmt.checks, Stmt.check, Expr.ty, Expr.tys, hfl [], applyFnTy, Pat.bindTy]
+        simp [Stmt.checks, Stmt.check, Expr.ty, Expr.tys, hfl [], applyFnTy, Pat.bindTy, Pat.total]
       rw [h1]
       simp only [Option.bind]
       apply Stmt.checks_same
@@ -599,12 +695,35 @@ theorem zodArms_ty (cx : TyCx) (Γ : TEnv) (k : Nat) (d : Data) (hd : cx.it.vari
     · exact harm
     · exact Arm.tys_nil ..
 
-theorem zeroizeSignature_ty (cx : TyCx) (Γ : TEnv) (hs : Γ.lookup .self_ = some (.refMut .self_)) :
+theorem zeroizeBody_covers (k : Nat) (d : Data) (hwf : d.WF) (hnu : d.shape ≠ .union) :
+    ∃ a ∈ zeroizeBody k d, a.pat.coversVariant k = true := by
+  unfold zeroizeBody
+  split
+  · exact ⟨_, List.mem_cons_self .., by simp [Arm.pat, Pat.coversVariant]⟩
+  · rename_i hne
+    rcases shape_of_nonempty' d .zeroize hwf hnu (by simpa using hne) with h | h <;> simp only [h] <;>
+      exact ⟨_, List.mem_cons_self .., by simp [Arm.pat, Pat.coversVariant]⟩
+
+theorem zodArms_covers (k : Nat) (d : Data) (hwf : d.WF) (hnu : d.shape ≠ .union) :
+    ∃ a ∈ zodArms k d, a.pat.coversVariant k = true := by
+  unfold zodArms
+  split
+  · exact ⟨_, List.mem_cons_self .., by simp [Arm.pat, Pat.coversVariant]⟩
+  · rename_i hne
+    rcases shape_of_nonempty' d .zeroizeOnDrop hwf hnu (by simpa using hne) with h | h <;> simp only [h] <;>
+      exact ⟨_, List.mem_cons_self .., by simp [Arm.pat, Pat.coversVariant]⟩
+
+theorem zeroizeSignature_ty (cx : TyCx) (Γ : TEnv) (hs : Γ.lookup .self_ = some (.refMut .self_))
+    (hwf : cx.it.WF) (hnu : ∀ d ∈ cx.it.variants, d.shape ≠ .union) :
     Fits ((zeroizeSignature cx.it (cx.it.indexed.flatMap fun (k, d) => zeroizeBody k d)).ty cx Γ) .unit := by
+  have hmem : ∀ x ∈ cx.it.indexed, x.2 ∈ cx.it.variants := fun x hx =>
+    List.mem_of_getElem? (Item.indexed_mem' cx.it x hx)
   have hgen : Fits ((Expr.block [.useTrait] (.match_ vSelf (cx.it.indexed.flatMap fun (k, d) => zeroizeBody k d))).ty
       cx Γ) .unit :=
     block_fits cx Γ Γ _ _ _ (by simp [Stmt.checks, Stmt.check])
       (match_fits cx Γ _ _ (.refMut .self_) _ (by simp [Expr.ty, vSelf, hs])
+        (exh_indexed cx.it _ (by simp [isSelfRef]) _ fun x hx =>
+          zeroizeBody_covers x.1 x.2 (hwf x.2 (hmem x hx)) (hnu x.2 (hmem x hx)))
         (Arm.tys_flatMap cx Γ _ _ _ _ fun x hx => zeroizeBody_ty cx Γ x.1 x.2 (Item.indexed_mem' cx.it x hx)))
   unfold zeroizeSignature
   split
@@ -613,14 +732,19 @@ theorem zeroizeSignature_ty (cx : TyCx) (Γ : TEnv) (hs : Γ.lookup .self_ = som
     · exact hgen
   · exact hgen
 
-theorem zodSignature_ty (c : Cfg) (cx : TyCx) (Γ : TEnv) (hs : Γ.lookup .self_ = some (.refMut .self_)) :
+theorem zodSignature_ty (c : Cfg) (cx : TyCx) (Γ : TEnv) (hs : Γ.lookup .self_ = some (.refMut .self_))
+    (hwf : cx.it.WF) (hnu : ∀ d ∈ cx.it.variants, d.shape ≠ .union) :
     Fits ((zodSignature c cx.it).ty cx Γ) .unit := by
+  have hmem : ∀ x ∈ cx.it.indexed, x.2 ∈ cx.it.variants := fun x hx =>
+    List.mem_of_getElem? (Item.indexed_mem' cx.it x hx)
   have hgen : Fits ((if c.zod then Expr.block [.useAsserts]
         (.match_ vSelf (cx.it.indexed.flatMap fun (k, d) => zodArms k d))
       else .block (cx.it.variants.flatMap zodStmts) .unit).ty cx Γ) .unit := by
     split
     · exact block_fits cx Γ Γ _ _ _ (by simp [Stmt.checks, Stmt.check])
         (match_fits cx Γ _ _ (.refMut .self_) _ (by simp [Expr.ty, vSelf, hs])
+          (exh_indexed cx.it _ (by simp [isSelfRef]) _ fun x hx =>
+            zodArms_covers x.1 x.2 (hwf x.2 (hmem x hx)) (hnu x.2 (hmem x hx)))
           (Arm.tys_flatMap cx Γ _ _ _ _ fun x hx => zodArms_ty cx Γ x.1 x.2 (Item.indexed_mem' cx.it x hx)))
     · refine block_fits cx Γ Γ _ _ _ (Stmt.checks_flatMap_same cx Γ _ _ ?_) (Fits.of_eq (by simp [Expr.ty]))
       intro d _ s hs'
@@ -636,7 +760,6 @@ theorem zodSignature_ty (c : Cfg) (cx : TyCx) (Γ : TEnv) (hs : Γ.lookup .self_
     · exact Fits.of_eq (by simp [Expr.ty, Stmt.checks])
     · exact hgen
   · exact hgen
-
 
 /-! ## `PartialOrd`, `Ord` -/
 
@@ -677,7 +800,11 @@ theorem ordBody_ty (cx : TyCx) (Γ : TEnv) (t : Trait) (k : Nat) (d : Data)
     simp only at hp
     have ih' := ih fun q hq => h q (by simp [hq])
     simp only [List.foldr_cons]
-    simp only [Expr.ty, Expr.tys, hp.1, hp.2, Option.bind, ordFn_field, Arm.tys, equalPat_bind, Pat.bindTy,
+    have hex : ∀ (e1 e2 : Expr) (τ : Ty), Arms.exhaustive cx.it τ
+        [Arm.mk (equalPat t) e1 true, Arm.mk (.bind .move_ .cmp) e2 true] = true := by
+      intro e1 e2 τ
+      exact exh_of_total cx.it τ _ (Arm.mk (.bind .move_ .cmp) e2 true) (by simp) (by simp [Arm.pat, Pat.total])
+    simp only [Expr.ty, Expr.tys, hp.1, hp.2, Option.bind, ordFn_field, hex, if_true, Arm.tys, equalPat_bind, Pat.bindTy,
       List.nil_append, ih', List.singleton_append, List.lookup_cons, beq_self_eq_true, join_never, join_self]
 
 theorem ordArm_ty (cx : TyCx) (Γ : TEnv) (t : Trait) (k : Nat) (d : Data) (hd : cx.it.variants[k]? = some d) :
@@ -734,7 +861,7 @@ theorem SelfOther.disc {Γ : TEnv} (h : SelfOther Γ) (τ : Ty) : SelfOther (ΓD
 
 theorem letDiscs_checks (cx : TyCx) (Γ : TEnv) (f : Fn) (τ : Ty) (hs : SelfOther Γ)
     (hf : applyFnTy cx.it f [.ref .self_] = some τ) : Stmt.checks cx Γ (letDiscs f) = some (ΓD τ Γ) := by
-  simp [letDiscs, Stmt.checks, Stmt.check, Expr.ty, Expr.tys, vSelf, vOther, hs.s, hs.o, hf, Pat.bindTy, ΓD,
+  simp [letDiscs, Stmt.checks, Stmt.check, Expr.ty, Expr.tys, vSelf, vOther, hs.s, hs.o, hf, Pat.bindTy, Pat.total, ΓD,
     List.lookup_cons, var_ne4]
 
 theorem discsEqual_ty (cx : TyCx) (Γ : TEnv) (τ : Ty) (hτ : τ = .int ∨ τ = .memDisc) :
@@ -749,11 +876,11 @@ theorem ordBodyEqual_ty (c : Cfg) (cx : TyCx) (Γ : TEnv) (vs : List Data) (t : 
   · cases h
   · split at h
     · cases h
-      refine match_fits cx Γ _ _ _ _ (tupleSO_ty cx Γ hs) (Arm.tys_append cx Γ _ _ _ _ harms ?_)
+      refine match_fits cx Γ _ _ _ _ (tupleSO_ty cx Γ hs) (exh_append_wild ..) (Arm.tys_append cx Γ _ _ _ _ harms ?_)
       exact Arm.tys_cons cx Γ pairTy _ .wild _ true [] [] (by simp [Pat.bindTy])
         (Fits.of_eq (equalExpr_ty cx _ t)) (Arm.tys_nil ..)
     · cases h
-      refine match_fits cx Γ _ _ _ _ (tupleSO_ty cx Γ hs) (Arm.tys_append cx Γ _ _ _ _ harms ?_)
+      refine match_fits cx Γ _ _ _ _ (tupleSO_ty cx Γ hs) (exh_append_wild ..) (Arm.tys_append cx Γ _ _ _ _ harms ?_)
       exact Arm.tys_cons cx Γ pairTy _ .wild _ true [] [] (by simp [Pat.bindTy])
         (Fits.never (unreachableRest_ty c cx _)) (Arm.tys_nil ..)
 
@@ -844,9 +971,17 @@ theorem discArms_go_ty (cx : TyCx) (Γ : TEnv) (vld : Bool) (n : Nat) (ds : List
 theorem discBody_ty (cx : TyCx) (vld : Bool) :
     Fits ((Expr.match_ (.var .this) (discArms vld (buildDiscriminants cx.it.variants))).ty cx
       [(.this, .ref .self_)]) .int := by
-  refine match_fits cx _ _ _ (.ref .self_) _ (by simp [Expr.ty]) ?_
-  unfold discArms
-  exact discArms_go_ty cx _ vld _ _ 0 (buildDiscriminants_ty cx) (by simp [buildDiscriminants_length])
+  refine match_fits cx _ _ _ (.ref .self_) _ (by simp [Expr.ty]) ?_ ?_
+  · -- one arm per variant
+    simp only [Arms.exhaustive, Bool.or_eq_true, Bool.and_eq_true, List.all_eq_true, List.mem_range, List.any_eq_true]
+    refine Or.inr ⟨by simp [isSelfRef], ?_⟩
+    intro k hk
+    have hk' : k < (buildDiscriminants cx.it.variants).length := by rw [buildDiscriminants_length]; exact hk
+    unfold discArms
+    exact ⟨_, List.mem_map.mpr ⟨((buildDiscriminants cx.it.variants)[k], k),
+      List.mk_mem_zipIdx_iff_getElem?.mpr (List.getElem?_eq_getElem hk'), rfl⟩, by simp [Arm.pat, Pat.coversVariant]⟩
+  · unfold discArms
+    exact discArms_go_ty cx _ vld _ _ 0 (buildDiscriminants_ty cx) (by simp [buildDiscriminants_length])
 
 /-- What the typing of `bodyElse` provides: its statements bind nothing and its tail has the ordering type. -/
 def BlkOK (cx : TyCx) (t : Trait) (b : Blk) : Prop :=
@@ -857,8 +992,9 @@ theorem discriminantComparison_ty (cx : TyCx) (t : Trait) (repr : Option IntTy) 
     BlkOK cx t (discriminantComparison repr validate (buildDiscriminants cx.it.variants) (ordFn t)) := by
   intro Γ hs
   obtain ⟨tb, htb, hfb⟩ := discBody_ty cx validate.isSome
-  have htb' : Arm.tys cx [(.this, .ref .self_)] (.ref .self_)
-      (discArms validate.isSome (buildDiscriminants cx.it.variants)) = some tb := by simpa [Expr.ty] using htb
+  have htb' : Arms.exhaustive cx.it (.ref .self_) (discArms validate.isSome (buildDiscriminants cx.it.variants)) = true ∧
+      Arm.tys cx [(.this, .ref .self_)] (.ref .self_)
+        (discArms validate.isSome (buildDiscriminants cx.it.variants)) = some tb := by simpa [Expr.ty] using htb
   have hval : Stmt.checks cx [] (validate.getD []) = some [] := by
     cases validate with
     | none => simp [Stmt.checks]
@@ -866,7 +1002,7 @@ theorem discriminantComparison_ty (cx : TyCx) (t : Trait) (repr : Option IntTy) 
   constructor
   · simp [discriminantComparison, Stmt.checks, Stmt.check, hval, htb, hfb]
   · apply Fits.of_eq
-    simp [discriminantComparison, discCall, Expr.ty, Expr.tys, hs.s, hs.o, htb', hfb, ordFn_int]
+    simp [discriminantComparison, discCall, Expr.ty, Expr.tys, hs.s, hs.o, htb'.1, htb'.2, hfb, ordFn_int]
 
 theorem castCmp_ty (cx : TyCx) (t : Trait) (Γ : TEnv) (conv : Expr → Expr)
     (h1 : (conv vSelf).ty cx Γ = some .int) (h2 : (conv vOther).ty cx Γ = some .int) :
@@ -1007,19 +1143,42 @@ structure OrdOK (c : Cfg) (cx : TyCx) (t : Trait) : Prop where
   /-- `Unit`/`UnitRepr` are only chosen for field-less enums (`Discriminant::parse`) -/
   fieldless : ∀ disc id inc vs, cx.it = .enum_ disc id inc vs → (disc = .unit ∨ ∃ r, disc = .unitRepr r) →
     cx.it.fieldless = true
+  wf : cx.it.WF
+  noUnion : ∀ d ∈ cx.it.variants, d.shape ≠ .union
+
+theorem ordArm_mem (t : Trait) (k : Nat) (d : Data) (hwf : d.WF) (hnu : d.shape ≠ .union) (hne : d.isEmpty t = false) :
+    d.shape = .named ∨ d.shape = .tuple := shape_of_nonempty' d t hwf hnu hne
+
+theorem ordArms_arm (k : Nat) (d : Data) (hwf : d.WF) (hnu : d.shape ≠ .union) (hne : d.isEmpty .ord = false) :
+    ∃ e c, Arm.mk (pairPat k) e c ∈ ordArms k d := by
+  unfold ordArms
+  simp only [hne, Bool.false_eq_true, if_false]
+  rcases shape_of_nonempty' d .ord hwf hnu hne with h | h <;> simp [h]
+
+theorem partialOrdBody_arm (dw : DeriveWhere) (k : Nat) (d : Data) (hwf : d.WF) (hnu : d.shape ≠ .union)
+    (hne : d.isEmpty .partialOrd = false) (hinc : d.incomparable = false)
+    (hsc : (dw.shortcut && dw.contains .ord) = false) : ∃ e c, Arm.mk (pairPat k) e c ∈ partialOrdBody dw k d := by
+  unfold partialOrdBody
+  simp only [hne, hinc, hsc, Bool.or_self, Bool.false_eq_true, if_false]
+  rcases shape_of_nonempty' d .partialOrd hwf hnu hne with h | h <;> simp [h]
 
 theorem ordSignature_ty (c : Cfg) (cx : TyCx) (dw : DeriveWhere) (t : Trait) (arms : List Arm) (Γ : TEnv)
-    (hs : SelfOther Γ) (hok : OrdOK c cx t) (harms : ∀ Γ, Fits (Arm.tys cx Γ pairTy arms) (ordTy t)) :
+    (hs : SelfOther Γ) (hok : OrdOK c cx t) (harms : ∀ Γ, Fits (Arm.tys cx Γ pairTy arms) (ordTy t))
+    (hexs : cx.it.variants.length ≤ 1 → cx.it.isIncomparable = false → cx.it.isEmpty t = false →
+      Arms.exhaustive cx.it pairTy arms = true) :
     Fits ((ordSignature c cx.it dw t arms).ty cx Γ) (ordTy t) := by
   have hretP : incomparablePattern cx.it.variants ≠ none → cx.ret = .optOrdering := by
     intro hne
     by_cases ht : t = .partialOrd
     · simp [hok.ret, ordTy, ht]
     · exact absurd (incomparablePattern_none _ (hok.noInc ht).2) hne
-  have hsingle : Fits ((if cx.it.isEmpty t then equalExpr t else .match_ tupleSO arms).ty cx Γ) (ordTy t) := by
+  have hsingle : cx.it.variants.length ≤ 1 → cx.it.isIncomparable = false →
+      Fits ((if cx.it.isEmpty t then equalExpr t else .match_ tupleSO arms).ty cx Γ) (ordTy t) := by
+    intro hlen hninc
     split
     · exact Fits.of_eq (equalExpr_ty cx Γ t)
-    · exact match_fits cx Γ _ _ _ _ (tupleSO_ty cx Γ hs) (harms Γ)
+    · rename_i hne
+      exact match_fits cx Γ _ _ _ _ (tupleSO_ty cx Γ hs) (hexs hlen hninc (by simpa using hne)) (harms Γ)
   unfold ordSignature
   split
   · rename_i hinc
@@ -1066,8 +1225,10 @@ theorem ordSignature_ty (c : Cfg) (cx : TyCx) (dw : DeriveWhere) (t : Trait) (ar
             have hbe2 := ordBodyElse_ty c cx dw disc t hds (hok.fieldless disc id inc vs hit)
             have := ordStable_ty cx Γ t _ (ordBodyEqual c cx.it vs t arms) hs hretP hbe hbe2
             rw [hvs] at this; exact this
-      · exact hsingle
-    · exact hsingle
+      · rename_i hlen
+        exact hsingle (by rw [hvs]; omega) (by simpa using hninc)
+    · rename_i d hit
+      exact hsingle (by simp [hit, Item.variants]) (by simpa using hninc)
 
 theorem partialOrdSignature_ty (c : Cfg) (cx : TyCx) (dw : DeriveWhere) (Γ : TEnv)
     (hs : SelfOther Γ) (hok : OrdOK c cx .partialOrd) :
@@ -1076,11 +1237,35 @@ theorem partialOrdSignature_ty (c : Cfg) (cx : TyCx) (dw : DeriveWhere) (Γ : TE
   unfold partialOrdSignature
   split
   · exact Fits.of_eq (by simp [Expr.ty, Expr.tys, vSelf, vOther, hs.s, hs.o, selfCallTy, applyFnTy])
-  · exact ordSignature_ty c cx dw .partialOrd _ Γ hs hok fun Γ' =>
-      Arm.tys_flatMap cx Γ' _ _ _ _ fun x hx => partialOrdBody_ty cx Γ' dw x.1 x.2 (Item.indexed_mem' cx.it x hx)
+  · rename_i hsc
+    exact ordSignature_ty c cx dw .partialOrd _ Γ hs hok (fun Γ' =>
+      Arm.tys_flatMap cx Γ' _ _ _ _ fun x hx => partialOrdBody_ty cx Γ' dw x.1 x.2 (Item.indexed_mem' cx.it x hx))
+      (fun hlen hninc hne => exh_single_pair cx.it .partialOrd (partialOrdBody dw) hlen hne fun d hv hde =>
+        partialOrdBody_arm dw 0 d (hok.wf d (by simp [hv])) (hok.noUnion d (by simp [hv])) hde
+          (single_not_incomparable cx.it d hv hninc) (by simpa using hsc))
 
 
 /-! ## `generate_body` -/
+
+theorem debugBody_covers (k : Nat) (d : Data) (hnu : d.shape ≠ .union) :
+    ∃ a ∈ debugBody k d, a.pat.coversVariant k = true := by
+  unfold debugBody
+  simp only
+  cases h : d.shape with
+  | union => exact absurd h hnu
+  | named => exact ⟨_, List.mem_cons_self .., by simp [Arm.pat, Pat.coversVariant]⟩
+  | tuple => exact ⟨_, List.mem_cons_self .., by simp [Arm.pat, Pat.coversVariant]⟩
+  | unit => exact ⟨_, List.mem_cons_self .., by simp [Arm.pat, Pat.coversVariant]⟩
+
+theorem hashBody_covers (k : Nat) (d : Data) (hnu : d.shape ≠ .union) :
+    ∃ a ∈ hashBody k d, a.pat.coversVariant k = true := by
+  unfold hashBody
+  simp only
+  cases h : d.shape with
+  | union => exact absurd h hnu
+  | named => exact ⟨_, List.mem_cons_self .., by simp [Arm.pat, Pat.coversVariant]⟩
+  | tuple => exact ⟨_, List.mem_cons_self .., by simp [Arm.pat, Pat.coversVariant]⟩
+  | unit => exact ⟨_, List.mem_cons_self .., by simp [Arm.pat, Pat.coversVariant]⟩
 
 /-- What the generators rely on (all of it established by validation, see `C02_well_typed`). -/
 structure Typeable (c : Cfg) (it : Item) (dw : DeriveWhere) (t : Trait) : Prop where
@@ -1096,6 +1281,12 @@ structure Typeable (c : Cfg) (it : Item) (dw : DeriveWhere) (t : Trait) : Prop w
   /-- `Default`: exactly one default variant (or a struct), not a union -/
   default1 : t = .default → ∃ (k : Nat) (d : Data), it.variants[k]? = some d ∧ d.isDefault = true ∧ d.shape ≠ .union ∧
     ∀ j d', j ≠ k → it.variants[j]? = some d' → d'.isDefault = false
+  /-- unit shapes have no fields -/
+  wf : it.WF
+  /-- only a union item has the union shape … -/
+  shapes : isUnion it = false → ∀ d ∈ it.variants, d.shape ≠ .union
+  /-- … and a union only derives `Clone` and `Copy` -/
+  unionTraits : isUnion it = true → t = .clone ∨ t = .copy
 
 theorem wellTyped_of_fits (it : Item) (m : Method') (h : Fits (m.body.ty ⟨it, m.sig.ret⟩ m.sig.params) m.sig.ret) :
     m.wellTyped it = true := by
@@ -1107,16 +1298,25 @@ theorem wellTyped_generateBody (c : Cfg) (it : Item) (dw : DeriveWhere) (t : Tra
   intro m hm
   have hso : SelfOther [(Var.self_, Ty.ref .self_), (Var.other, Ty.ref .self_)] :=
     ⟨by simp [List.lookup_cons], by simp +decide [List.lookup_cons]⟩
+  -- apart from `Clone` / `Copy`, the item is no union
+  have hnu : t ≠ .clone → t ≠ .copy → ∀ d ∈ it.variants, d.shape ≠ .union := by
+    intro h1 h2
+    cases hu : isUnion it
+    · exact h.shapes hu
+    · rcases h.unionTraits hu with h' | h' <;> contradiction
+  have hmem : ∀ x ∈ it.indexed, x.2 ∈ it.variants := fun x hx => List.mem_of_getElem? (Item.indexed_mem' it x hx)
   cases t <;> simp only [generateBody, Option.toList, List.mem_singleton, List.not_mem_nil] at hm
   case clone =>
     subst hm
-    exact wellTyped_of_fits it _ (cloneSignature_ty ⟨it, .self_⟩ _ dw (by simp [Sig.params, List.lookup_cons]))
+    exact wellTyped_of_fits it _ (cloneSignature_ty ⟨it, .self_⟩ _ dw (by simp [Sig.params, List.lookup_cons]) h.shapes)
   case debug =>
     subst hm
+    have hnu' := hnu (by simp) (by simp)
     refine wellTyped_of_fits it _ (match_fits ⟨it, .fmtResult⟩ _ _ _ (.ref .self_) _
-      (by simp [Expr.ty, vSelf, Sig.params, List.lookup_cons]) ?_)
-    exact Arm.tys_flatMap _ _ _ _ _ _ fun x hx => debugBody_ty ⟨it, .fmtResult⟩ _ x.1 x.2
-      (Item.indexed_mem' it x hx) (by simp +decide [Sig.params, List.lookup_cons])
+      (by simp [Expr.ty, vSelf, Sig.params, List.lookup_cons]) ?_ ?_)
+    · exact exh_indexed it _ (by simp [isSelfRef]) _ fun x hx => debugBody_covers x.1 x.2 (hnu' x.2 (hmem x hx))
+    · exact Arm.tys_flatMap _ _ _ _ _ _ fun x hx => debugBody_ty ⟨it, .fmtResult⟩ _ x.1 x.2
+        (Item.indexed_mem' it x hx) (by simp +decide [Sig.params, List.lookup_cons])
   case default =>
     subst hm
     obtain ⟨k, d, hd, hdef, hu, hone⟩ := h.default1 rfl
@@ -1139,19 +1339,24 @@ theorem wellTyped_generateBody (c : Cfg) (it : Item) (dw : DeriveWhere) (t : Tra
       simp [Stmt.check, Item.indexed_mem' it x hx, iterFields_lt x.2 _ p hp]
   case hash =>
     subst hm
+    have hnu' := hnu (by simp) (by simp)
     refine wellTyped_of_fits it _ (match_fits ⟨it, .unit⟩ _ _ _ (.ref .self_) _
-      (by simp [Expr.ty, vSelf, Sig.params, List.lookup_cons]) ?_)
-    exact Arm.tys_flatMap _ _ _ _ _ _ fun x hx => hashBody_ty ⟨it, .unit⟩ _ x.1 x.2
-      (Item.indexed_mem' it x hx) (by simp [Sig.params, List.lookup_cons]) (by simp +decide [Sig.params, List.lookup_cons])
+      (by simp [Expr.ty, vSelf, Sig.params, List.lookup_cons]) ?_ ?_)
+    · exact exh_indexed it _ (by simp [isSelfRef]) _ fun x hx => hashBody_covers x.1 x.2 (hnu' x.2 (hmem x hx))
+    · exact Arm.tys_flatMap _ _ _ _ _ _ fun x hx => hashBody_ty ⟨it, .unit⟩ _ x.1 x.2
+        (Item.indexed_mem' it x hx) (by simp [Sig.params, List.lookup_cons]) (by simp +decide [Sig.params, List.lookup_cons])
   case ord =>
     subst hm
+    have hnu' := hnu (by simp) (by simp)
     have hok : OrdOK c ⟨it, .ordering⟩ .ord :=
-      ⟨by simp [ordTy], fun _ => h.ordNoInc rfl, h.single (Or.inl rfl), h.fieldless⟩
-    exact wellTyped_of_fits it _ (ordSignature_ty c ⟨it, .ordering⟩ dw .ord _ _ hso hok fun Γ' =>
+      ⟨by simp [ordTy], fun _ => h.ordNoInc rfl, h.single (Or.inl rfl), h.fieldless, h.wf, hnu'⟩
+    exact wellTyped_of_fits it _ (ordSignature_ty c ⟨it, .ordering⟩ dw .ord _ _ hso hok (fun Γ' =>
       Arm.tys_flatMap _ Γ' _ _ _ _ fun x hx => ordArms_ty ⟨it, .ordering⟩ Γ' x.1 x.2 (Item.indexed_mem' it x hx))
+      (fun hlen _ hne => exh_single_pair it .ord ordArms hlen hne fun d hv hde =>
+        ordArms_arm 0 d (h.wf d (by simp [hv])) (hnu' d (by simp [hv])) hde))
   case partialEq =>
     subst hm
-    exact wellTyped_of_fits it _ (partialEqSignature_ty c ⟨it, .bool⟩ _ hso rfl)
+    exact wellTyped_of_fits it _ (partialEqSignature_ty c ⟨it, .bool⟩ _ hso rfl h.wf (hnu (by simp) (by simp)))
   case partialOrd =>
     subst hm
     apply wellTyped_of_fits
@@ -1159,13 +1364,16 @@ theorem wellTyped_generateBody (c : Cfg) (it : Item) (dw : DeriveWhere) (t : Tra
     · simp only [partialOrdSignature, hsc, if_true]
       exact Fits.of_eq (by simp [Expr.ty, Expr.tys, vSelf, vOther, Sig.params, Sig.ret, List.lookup_cons, var_ne6, selfCallTy, applyFnTy])
     · have hok : OrdOK c ⟨it, .optOrdering⟩ .partialOrd :=
-        ⟨by simp [ordTy], fun hne => absurd rfl hne, h.single (Or.inr ⟨rfl, by simpa using hsc⟩), h.fieldless⟩
+        ⟨by simp [ordTy], fun hne => absurd rfl hne, h.single (Or.inr ⟨rfl, by simpa using hsc⟩), h.fieldless, h.wf,
+          hnu (by simp) (by simp)⟩
       exact partialOrdSignature_ty c ⟨it, .optOrdering⟩ dw _ hso hok
   case zeroize =>
     subst hm
-    exact wellTyped_of_fits it _ (zeroizeSignature_ty ⟨it, .unit⟩ _ (by simp [Sig.params, List.lookup_cons]))
+    exact wellTyped_of_fits it _ (zeroizeSignature_ty ⟨it, .unit⟩ _ (by simp [Sig.params, List.lookup_cons]) h.wf
+      (hnu (by simp) (by simp)))
   case zeroizeOnDrop =>
     subst hm
-    exact wellTyped_of_fits it _ (zodSignature_ty c ⟨it, .unit⟩ _ (by simp [Sig.params, List.lookup_cons]))
+    exact wellTyped_of_fits it _ (zodSignature_ty c ⟨it, .unit⟩ _ (by simp [Sig.params, List.lookup_cons]) h.wf
+      (hnu (by simp) (by simp)))
 
 end DW
